@@ -5,6 +5,7 @@ import (
 	"encoding/base64"
 	stdjson "encoding/json"
 	"fmt"
+	"io"
 	"math"
 	"reflect"
 	"sort"
@@ -137,7 +138,7 @@ func (d TypeDesc) build() (rt reflect.Type, err error) {
 }
 
 var fieldNames = []string{"A", "B", "C", "Dd", "Key", "Sk", "Ks", "X1", "Zz", "Name", "K"}
-var tagNames = []string{"", "a", "b", "A", "key", "KEY", "x-y", "é", "k", "s", "K", "S", "dd", "with space", "<tag>", "0", "name", "ſk", "Kk"}
+var tagNames = []string{"disk_size", "key2", "max-items", "s_1", "", "a", "b", "A", "key", "KEY", "x-y", "é", "k", "s", "K", "S", "dd", "with space", "<tag>", "0", "name", "ſk", "Kk"}
 
 func genType(t *rapid.T, depth int, label string) TypeDesc {
 	k := gen.Uniform(t, 0, 11, label+"k")
@@ -475,8 +476,13 @@ func normBF(b []byte) []byte {
 }
 
 func errType(err error) string {
-	if err == nil {
+	switch err {
+	case nil:
 		return "nil"
+	case io.EOF:
+		return "io.EOF" // sentinels share a dynamic type: tell them apart by identity
+	case io.ErrUnexpectedEOF:
+		return "io.ErrUnexpectedEOF"
 	}
 	return reflect.TypeOf(err).String()
 }
